@@ -219,7 +219,7 @@ theorem core_set {α} (h : List Tok → UInt64) (P : List Tok → Prop) (hinj : 
   refine ⟨?_, hxy'⟩
   have hperm := perm_of_sort_eq (all2_eq hs)
   obtain ⟨l', p, e⟩ := perm_map_inv hh l2 l1 hperm
-  refine ⟨l', p, ?_⟩
+  refine ⟨l', l2, p, .refl _, ?_⟩
   refine all2_imp ?_ (all2_map_eq e)
   intro a ha b hb hab
   have ha1 : a ∈ l1 := p.symm.subset ha
@@ -231,14 +231,15 @@ theorem core_set {α} (h : List Tok → UInt64) (P : List Tok → Prop) (hinj : 
 theorem setToks_congr {α} (h : List Tok → UInt64) (f : α → List Tok) (R : α → α → Prop) (l1 l2 : List α)
     (H : ∀ a ∈ l1, ∀ b ∈ l2, R a b → f a = f b) (hp : PermBy R l1 l2) :
     setToks h (l1.map f) = setToks h (l2.map f) := by
-  obtain ⟨l', p, a2⟩ := hp
-  have e : l'.map f = l2.map f :=
-    map_eq_of_all2 (fun a ha b hb => H a (p.symm.subset ha) b hb) a2
+  obtain ⟨l1', l2', p1, p2, a2⟩ := hp
+  have e : l1'.map f = l2'.map f :=
+    map_eq_of_all2 (fun a ha b hb => H a (p1.symm.subset ha) b (p2.symm.subset hb)) a2
   unfold setToks
-  rw [← e]
-  have : ((l1.map f).map fun s => (h s).toNat).Perm ((l'.map f).map fun s => (h s).toNat) :=
-    (p.map f).map _
-  rw [sort_eq_of_perm this]
-  simp [p.length_eq]
+  have q1 : ((l1.map f).map fun s => (h s).toNat).Perm ((l1'.map f).map fun s => (h s).toNat) :=
+    (p1.map f).map _
+  have q2 : ((l2.map f).map fun s => (h s).toNat).Perm ((l2'.map f).map fun s => (h s).toNat) :=
+    (p2.map f).map _
+  rw [sort_eq_of_perm q1, sort_eq_of_perm q2, e]
+  simp [p1.length_eq, p2.length_eq, all2_length a2]
 
 end SR.Hash
